@@ -131,6 +131,10 @@ func (h accountsResourceHandler) Expand(opts common.ResourceQuery[any], property
 		if !h.store.ledger.HasFeature(features.FeatureMovesHistoryPostCommitEffectiveVolumes, "SYNC") {
 			return nil, nil, common.NewErrInvalidQuery("feature %s must be 'SYNC' to use effectiveVolumes", features.FeatureMovesHistoryPostCommitEffectiveVolumes)
 		}
+		// at a point in time they are read from the moves history
+		if opts.UsePIT() && !h.store.ledger.HasFeature(features.FeatureMovesHistory, "ON") {
+			return nil, nil, common.NewErrInvalidQuery("feature %s must be 'ON' to use effectiveVolumes with a point in time", features.FeatureMovesHistory)
+		}
 	}
 
 	selectRowsQuery := h.store.newScopedSelect().
